@@ -15,7 +15,7 @@ UvMapping::point and Mesh::uv_to_3d both form a*bc[0] + b*bc[1] + c*bc[2] on the
 uv_with_tol maps the barycentric location of the projected face through uv_map.point(id, ..) and measures depth along that face's
 normal, with the transform applied once.
 interior_barycentric rejects exactly under det == 0 (the determinant the weights are divided by); the face list of Mesh.shape changes only while
-neither mesh carries a UV map. Round 5: UvMapping::triangle returns None only by propagating interior_barycentric (never by where the projection landed); calc_face_angles treats a face as degenerate exactly under a strict l_j > l_a + l_b."""
+neither mesh carries a UV map. Round 5: UvMapping::triangle returns None only by propagating interior_barycentric (never by where the projection landed); calc_face_angles treats a face as degenerate exactly under a strict l_j > l_a + l_b. Round 6: boundary_edge_lengths[k] is the length of the edge LEAVING boundary vertex k; calc_extend_h writes 0.5 * (u[k-1] - u[k+1]) at boundary vertex k, in this order."""
 NOT_DECIDED = "isometry on planar disks, no folding, rigid-motion invariance (numerical linear algebra: laplacian_set, dirichlet_boundary, best_fit_curve, extend_curve are not analysed beyond calc_extend_uv_xs and invert_2x2); genus (a one-boundary surface of higher genus is not rejected)"
 ASSUMPTIONS = ["faer solves / factorisations are trusted"]
 
